@@ -59,6 +59,21 @@ check("C01",
       "TLA+ oracle (MeshCore) + cache-state model (C01_MC) + exhaustive input enumeration (MeshEnum) with TLC; replay into SurfaceMesh; TLC trace validation (C01_Trace)",
       "DESIGN.md 6.1")
 
+check("C06",
+      "TLC checks that a heap model of meshes (every vertex a reference to a coordinate buffer; producers that store one "
+      "buffer under two ids; deepcopy; merge; in-place or rebinding transforms; in-place and rebinding edits) refines the "
+      "pure value semantics of C06_Values for <= 3 live meshes and all histories of depth 4/5; the as-built deviations "
+      "(merge shares arrays, translate adds in place) each give a counterexample. Every transition of the model (sampled "
+      "to 6 000 / 60 000 histories) and random histories over 23 real producers (generators, loaders, from_arrays, "
+      "subdivision, boundary extraction, merge, copy) are executed on real meshes; after every call the exact rational "
+      "coordinates of ALL live meshes are validated by TLC against the abstract state, incl. index shifts of merge and "
+      "the documented bounding box after normalize.",
+      "Coordinates are lattice points (written in place after production, which preserves the producer's sharing); "
+      "rotations are quarter turns and one 3-4-5 turn, scales 2 and 1/2; general-angle rotations are not decided. Meshes "
+      "whose coordinates stop being exactly representable are not judged further.",
+      "TLA+ heap-refines-values model (C06_MC, C06_Values) checked with TLC; transition-cover replay on real meshes; TLC trace validation (C06_Trace)",
+      "DESIGN.md 6.6")
+
 ALL = ["C%02d" % i for i in range(1, 21)]
 
 
